@@ -358,6 +358,11 @@ func (fc *FnCtx) applyContract(con *FuncContract, name string, c *ssa.CallCommon
 			post.vars[con.Results[0]] = res
 		}
 	}
+	// the callee's ghost variables are internal to its own proof
+	for _, g := range con.Ghosts {
+		s := smtSortName(g.Sort)
+		post.vars[g.Name] = Val{T: fc.fresh("calleeghost."+g.Name, s), Sort: s, Math: s == sInt}
+	}
 	for _, en := range con.Ensures {
 		fc.assumeHere(fc.evalBool(en.E, post))
 	}
@@ -443,6 +448,16 @@ func (fc *FnCtx) assignTargets(a *Expr, env *Env) []assignTarget {
 			s := ev(a.Args[0])
 			st := s.Typ.Underlying().(*types.Slice)
 			out = append(out, assignTarget{kind: "range", obj: sx("s-obj", s.T), lo: sx("s-off", s.T), hi: add(sx("s-off", s.T), sx("s-len", s.T)), elem: st.Elem()})
+			return out
+		case "mapof":
+			m := ev(a.Args[0])
+			mt, ok := m.Typ.Underlying().(*types.Map)
+			if !ok {
+				panic(bindError{"assigns mapof(" + a.Args[0].String() + "): not a map"})
+			}
+			vs := sortOf(mt.Elem())
+			out = append(out, assignTarget{kind: "cell", loc: &Loc{Region: fc.eng.mapRegion(mt, "dom"), Idx: []string{m.T}, Sort: arrSort(sBool)}})
+			out = append(out, assignTarget{kind: "cell", loc: &Loc{Region: fc.eng.mapRegion(mt, "val"), Idx: []string{m.T}, Sort: arrSort(vs)}})
 			return out
 		case "caps":
 			s := ev(a.Args[0])
@@ -616,6 +631,9 @@ func (fc *FnCtx) checkFrame(pos token.Pos) {
 				}
 				if t.kind == "cell" && t.loc.Region == r && len(t.loc.Idx) == 2 {
 					ex = append(ex, and(eq(o, t.loc.Idx[0]), eq(k, t.loc.Idx[1])))
+				}
+				if t.kind == "cell" && t.loc.Region == r && len(t.loc.Idx) == 1 {
+					ex = append(ex, eq(o, t.loc.Idx[0]))
 				}
 			}
 			ex = append(ex, mine(o))
